@@ -110,6 +110,11 @@ func NewProtocol[G algebra.PrimeGroupElement[G, S], S algebra.PrimeFieldElement[
 		if s == nil {
 			return *new(G), proofs.ErrInvalidArgument.WithMessage("homomorphism input cannot be nil")
 		}
+		// A response decoded from the wire may carry any number of components;
+		// ScalarDiagonal indexes one component per generator and would panic.
+		if len(s.Components()) != len(generators) {
+			return *new(G), proofs.ErrInvalidArgument.WithMessage("homomorphism input has %d components, expected %d", len(s.Components()), len(generators))
+		}
 		return generatorsVector.ScalarDiagonal(s).CoDiagonal(), nil
 	}
 
